@@ -1,4 +1,4 @@
-CONSTANT NP = 8
+CONSTANT NP = 9
 INIT Init
 NEXT Next
 CHECK_DEADLOCK FALSE
